@@ -423,3 +423,168 @@ Proof.
       destruct r2; try reflexivity. unfold rp_parse. cbn [rp_line rp_headers rp_valid]. rewrite Hfl. reflexivity.
     + destruct Hfl as [-> Hv1]. unfold rp_parse. cbn [rp_line rp_headers rp_valid]. rewrite Hv1. reflexivity.
 Qed.
+
+(* ---- rx_chunk ---- *)
+Lemma nlen_app' a b : nlen (a ++ b) = nlen a + nlen b.
+Proof. unfold nlen. rewrite app_length. lia. Qed.
+
+Lemma ck_loop_flags L buf : forall k k1 rest res, ck_loop L k buf = (k1, rest, res) ->
+  match res with
+  | Done => ck_valid k1 = true
+  | More => rest = [] /\ ck_valid k1 = false
+  | Fail => True
+  end.
+Proof.
+  induction buf as [|c t IH]; intros k k1 rest res H; cbn [ck_loop] in H.
+  - destruct (ck_done k) eqn:Ed; inversion H; subst; cbn; auto.
+  - destruct (ck_done k) eqn:Ed; [inversion H; subst; reflexivity|].
+    destruct (ck_parse_char L k c) as [k2 ok]. destruct ok; [exact (IH _ _ _ _ H)|]. inversion H; subst. exact I.
+Qed.
+
+Lemma ck_parse_flags L k buf k1 rest res : ck_parse L k buf = (k1, rest, res) ->
+  match res with
+  | Done => ck_valid k1 = true
+  | More => rest = [] /\ ck_valid k1 = false
+  | Fail => True
+  end.
+Proof. unfold ck_parse. destruct (ck_fail k); [intros H; inversion H; subst; exact I|]. apply ck_loop_flags. Qed.
+
+Definition rc_glue_end (L : limits) (b : str) (x : rx_chunk * str * pres) : rx_chunk * str * pres :=
+  match x with
+  | (k1, ra, Done) => (k1, ra ++ b, Done)
+  | (k1, ra, Fail) => (k1, ra ++ b, Fail)
+  | (k1, _, More) => match b with [] => (k1, [], More) | _ => rc_data_end L k1 b end
+  end.
+
+Lemma rc_data_end_app L k c x b : rc_data_end L k ((c :: x) ++ b) = rc_glue_end L b (rc_data_end L k (c :: x)).
+Proof.
+  cbn [app]. unfold rc_data_end at 1 2. destruct (rc_cr k) eqn:Ecr.
+  - destruct (c =? 10); reflexivity.
+  - destruct (c =? 13) eqn:E13.
+    + destruct x as [|d x'].
+      * cbn [app rc_glue_end]. destruct b as [|d b']; [reflexivity|]. unfold rc_data_end. cbn [rc_cr]. reflexivity.
+      * cbn [app]. destruct (d =? 10); reflexivity.
+    + destruct (strict_crlf L); [reflexivity|]. destruct (c =? 10); reflexivity.
+Qed.
+
+Lemma rc_data_end_more L k x k1 rest : rc_data_end L k x = (k1, rest, More) ->
+  rest = [] /\ rc_hdr k1 = rc_hdr k /\ rc_data k1 = rc_data k /\ rc_trailers k1 = rc_trailers k /\
+  rc_valid k1 = rc_valid k /\ rc_fail k1 = rc_fail k /\ (x <> [] -> rc_cr k1 = true).
+Proof.
+  unfold rc_data_end. destruct x as [|c t]; [intros H; inversion H; subst; repeat split; congruence|].
+  destruct (rc_cr k) eqn:Ecr.
+  - destruct (c =? 10); intros H; inversion H.
+  - destruct (c =? 13).
+    + destruct t as [|d t1]; [intros H; inversion H; subst; repeat split; reflexivity|]. destruct (d =? 10); intros H; inversion H.
+    + destruct (strict_crlf L); [intros H; inversion H|]. destruct (c =? 10); intros H; inversion H.
+Qed.
+
+Definition rc_ok (k : rx_chunk) : Prop := hd_ok (rc_trailers k).
+
+Lemma firstn_app_le {A} n (a b : list A) : (n <= length a)%nat -> firstn n (a ++ b) = firstn n a.
+Proof. intros H. rewrite firstn_app. replace (n - length a)%nat with 0%nat by lia. cbn [firstn]. apply app_nil_r. Qed.
+Lemma skipn_app_le {A} n (a b : list A) : (n <= length a)%nat -> skipn n (a ++ b) = skipn n a ++ b.
+Proof. intros H. rewrite skipn_app. replace (n - length a)%nat with 0%nat by lia. reflexivity. Qed.
+Lemma firstn_app_ge {A} n (a b : list A) : (length a <= n)%nat -> firstn n (a ++ b) = a ++ firstn (n - length a) b.
+Proof. intros H. rewrite firstn_app, firstn_all2 by exact H. reflexivity. Qed.
+Lemma skipn_app_ge {A} n (a b : list A) : (length a <= n)%nat -> skipn n (a ++ b) = skipn (n - length a) b.
+Proof. intros H. rewrite skipn_app, skipn_all2 by exact H. reflexivity. Qed.
+
+Lemma rc_eta k : mk_rc (rc_hdr k) (rc_data k) (rc_trailers k) (rc_valid k) (rc_cr k) (rc_fail k) = k.
+Proof. destruct k; reflexivity. Qed.
+
+Lemma rc_parse_app L k a b : rc_ok k ->
+  rc_parse L k (a ++ b) =
+  match rc_parse L k a with
+  | (k1, ra, Done) => (k1, ra ++ b, Done)
+  | (k1, ra, Fail) => (k1, ra ++ b, Fail)
+  | (k1, _, More) => rc_parse L k1 b
+  end.
+Proof.
+  intros Hok. unfold rc_parse at 1 2. destruct (rc_fail k) eqn:Ef; [reflexivity|].
+  (* the part after the chunk size line, for the size line h1 and what follows it *)
+  assert (Hbody : forall h1 ra, ck_valid h1 = true ->
+    (let k1 := mk_rc h1 (rc_data k) (rc_trailers k) (rc_valid k) (rc_cr k) (rc_fail k) in
+     if ck_size h1 =? 0 then
+       let '(t1, buf2, r2) := hd_parse L (rc_trailers k1) (ra ++ b) in
+       let k2 := mk_rc h1 (rc_data k1) t1 (rc_valid k1) (rc_cr k1) (rc_fail k1) in
+       match r2 with Done => (mk_rc h1 (rc_data k1) t1 true (rc_cr k1) (rc_fail k1), buf2, Done) | r => (k2, buf2, r) end
+     else
+       let required := ck_size h1 - nlen (rc_data k1) in
+       let rx_size := nlen (ra ++ b) in
+       if required <? rx_size then
+         let n := N.to_nat required in
+         let k2 := mk_rc h1 (rc_data k1 ++ firstn n (ra ++ b)) (rc_trailers k1) (rc_valid k1) (rc_cr k1) (rc_fail k1) in
+         rc_data_end L k2 (skipn n (ra ++ b))
+       else (mk_rc h1 (rc_data k1 ++ (ra ++ b)) (rc_trailers k1) (rc_valid k1) (rc_cr k1) (rc_fail k1), [], More)) =
+    match (let k1 := mk_rc h1 (rc_data k) (rc_trailers k) (rc_valid k) (rc_cr k) (rc_fail k) in
+     if ck_size h1 =? 0 then
+       let '(t1, buf2, r2) := hd_parse L (rc_trailers k1) ra in
+       let k2 := mk_rc h1 (rc_data k1) t1 (rc_valid k1) (rc_cr k1) (rc_fail k1) in
+       match r2 with Done => (mk_rc h1 (rc_data k1) t1 true (rc_cr k1) (rc_fail k1), buf2, Done) | r => (k2, buf2, r) end
+     else
+       let required := ck_size h1 - nlen (rc_data k1) in
+       let rx_size := nlen ra in
+       if required <? rx_size then
+         let n := N.to_nat required in
+         let k2 := mk_rc h1 (rc_data k1 ++ firstn n ra) (rc_trailers k1) (rc_valid k1) (rc_cr k1) (rc_fail k1) in
+         rc_data_end L k2 (skipn n ra)
+       else (mk_rc h1 (rc_data k1 ++ ra) (rc_trailers k1) (rc_valid k1) (rc_cr k1) (rc_fail k1), [], More)) with
+    | (k1, rb, Done) => (k1, rb ++ b, Done)
+    | (k1, rb, Fail) => (k1, rb ++ b, Fail)
+    | (k1, _, More) => rc_parse L k1 b
+    end).
+  { intros h1 ra Hv1. cbn zeta. cbn [rc_data rc_trailers rc_valid rc_cr rc_fail].
+    destruct (ck_size h1 =? 0) eqn:Ez.
+    - (* the last chunk: trailers *)
+      rewrite (hd_parse_app L _ ra b Hok).
+      destruct (hd_parse L (rc_trailers k) ra) as [[t1 rb] r2] eqn:Eh. destruct r2; try reflexivity.
+      unfold rc_parse. cbn [rc_fail rc_hdr rc_data rc_trailers rc_valid rc_cr]. rewrite Ef, Hv1, Ez. reflexivity.
+    - set (required := ck_size h1 - nlen (rc_data k)).
+      rewrite nlen_app'.
+      destruct (required <? nlen ra) eqn:Elt.
+      + (* the data ends inside ra *)
+        assert (Hlt2 : (required <? nlen ra + nlen b) = true) by (unfold nlen in *; lia).
+        rewrite Hlt2.
+        assert (Hn : (N.to_nat required < length ra)%nat) by (unfold nlen in Elt; lia).
+        rewrite firstn_app_le, skipn_app_le by lia.
+        destruct (skipn (N.to_nat required) ra) as [|c x] eqn:Esk.
+        { exfalso. assert (length (skipn (N.to_nat required) ra) = 0%nat) by (rewrite Esk; reflexivity). rewrite skipn_length in H. lia. }
+        rewrite rc_data_end_app.
+        set (k2 := mk_rc h1 (rc_data k ++ firstn (N.to_nat required) ra) (rc_trailers k) (rc_valid k) (rc_cr k) false).
+        rewrite Ef. fold k2.
+        destruct (rc_data_end L k2 (c :: x)) as [[k3 rb] r3] eqn:Ede. destruct r3; try reflexivity.
+        cbn [rc_glue_end].
+        destruct (rc_data_end_more L _ _ _ _ Ede) as [_ [H1 [H2 [H3 [H4 [H5 H6]]]]]].
+        assert (Hcr3 : rc_cr k3 = true) by (apply H6; discriminate).
+        unfold rc_parse. rewrite H5. cbn [k2 rc_fail]. rewrite H1. cbn [k2 rc_hdr]. rewrite Hv1, Ez.
+        cbn zeta. cbn [rc_data rc_trailers rc_valid rc_cr rc_fail].
+        assert (Hreq : ck_size h1 - nlen (rc_data k3) = 0).
+        { rewrite H2. cbn [k2 rc_data]. rewrite nlen_app'. unfold nlen at 2. rewrite firstn_length. unfold required in *. lia. }
+        rewrite Hreq. cbn [N.to_nat firstn skipn]. rewrite app_nil_r.
+        assert (Ek3 : mk_rc h1 (rc_data k3) (rc_trailers k3) (rc_valid k3) (rc_cr k3) false = k3).
+        { destruct k3; cbn in *. subst. reflexivity. }
+        destruct b as [|d b'].
+        * replace (0 <? nlen []) with false by reflexivity. rewrite app_nil_r, Ek3. reflexivity.
+        * replace (0 <? nlen (d :: b')) with true by (unfold nlen; cbn [length]; lia). rewrite Ek3. reflexivity.
+      + (* all of ra is data *)
+        assert (Hge : (length ra <= N.to_nat required)%nat) by (unfold nlen in Elt; lia).
+        cbn [rc_parse]. unfold rc_parse. cbn [rc_fail rc_hdr rc_data rc_trailers rc_valid rc_cr]. rewrite Ef, Hv1, Ez.
+        cbn zeta. cbn [rc_data rc_trailers rc_valid rc_cr rc_fail].
+        rewrite nlen_app'.
+        replace (ck_size h1 - (nlen (rc_data k) + nlen ra)) with (required - nlen ra) by (unfold required; lia).
+        destruct (required <? nlen ra + nlen b) eqn:Elt2.
+        * replace (required - nlen ra <? nlen b) with true by (unfold nlen in *; lia).
+          rewrite firstn_app_ge, skipn_app_ge by lia.
+          replace (N.to_nat (required - nlen ra)) with (N.to_nat required - length ra)%nat by (unfold nlen; lia).
+          rewrite <- app_assoc. reflexivity.
+        * replace (required - nlen ra <? nlen b) with false by (unfold nlen in *; lia).
+          rewrite <- app_assoc. reflexivity. }
+  destruct (ck_valid (rc_hdr k)) eqn:Ehv.
+  - pose proof (Hbody (rc_hdr k) a Ehv) as HB. rewrite Ef in HB. exact HB.
+  - rewrite (ck_parse_app L a _ b Ehv).
+    destruct (ck_parse L (rc_hdr k) a) as [[h1 ra] r1] eqn:Ec. pose proof (ck_parse_flags L _ _ _ _ _ Ec) as Hfl.
+    destruct r1; try reflexivity.
+    + pose proof (Hbody h1 ra Hfl) as HB. rewrite Ef in HB. exact HB.
+    + destruct Hfl as [-> Hv1]. unfold rc_parse. cbn [rc_fail rc_hdr rc_data rc_trailers rc_valid rc_cr]. rewrite Hv1. reflexivity.
+Qed.
